@@ -323,8 +323,9 @@ func (x *Exec) runBlock(fr *Frame, b *ssa.BasicBlock, idx int, st *State, k cont
 				fr.defers = append(fr.defers, df)
 				continue
 			}
-			if _, ok := in.(*ssa.Go); ok {
+			if g, ok := in.(*ssa.Go); ok {
 				x.note("go statement (spawned function verified separately, interleaving not modelled)", fr.fn.Name())
+				x.checkSpawn(fr, st, g)
 				continue
 			}
 			call := in.(*ssa.Call)
@@ -620,6 +621,10 @@ func (x *Exec) initOpaque(st *State, t types.Type, addr *Term) {
 			st.setArr("G|held", Store(heldArr(st), a, False))
 		case isNamed(ft, "sync", "Once"):
 			st.setArr("G|oncedone", Store(st.arr("G|oncedone", ArrayS(IntS, BoolS)), a, False))
+		case isNamed(ft, "sync/atomic", "Value"):
+			// zero atomic.Value: nothing stored (ghost cells of the extern contracts of Store/Load)
+			st.setArr("G|atomtag", Store(st.arr("G|atomtag", ArrayS(IntS, IntS)), a, IntLit(0)))
+			st.setArr("G|atomval", Store(st.arr("G|atomval", ArrayS(IntS, IntS)), a, IntLit(0)))
 		case isNamed(ft, "sync", "Map"):
 			if owner.Obj().Pkg() == nil {
 				continue
@@ -1061,5 +1066,44 @@ func (x *Exec) trackPropagates(fr *Frame, st *State, cc *ssa.CallCommon, rets []
 			cur = False
 		}
 		st.ghostV[failedKey(p.Label)] = Or(cur, cond)
+	}
+}
+
+
+// checkSpawn: the precondition of a function started by a go statement must hold where it is started (the spawned
+// function itself is verified separately against its contract; nothing else about the new goroutine is modelled).
+func (x *Exec) checkSpawn(fr *Frame, st *State, g *ssa.Go) {
+	cc := g.Common()
+	if cc.IsInvoke() {
+		return
+	}
+	var fn *ssa.Function
+	var bind []Value
+	switch v := x.val(fr, st, cc.Value).(type) {
+	case ClosureV:
+		fn, bind = v.Fn, v.Bind
+	default:
+		return
+	}
+	c := x.eng.cs.Funcs[x.eng.fnKey[fn]]
+	if c == nil || len(c.Requires) == 0 {
+		return
+	}
+	var args []Value
+	for _, a := range cc.Args {
+		args = append(args, x.val(fr, st, a))
+	}
+	env := x.contractEnv(st, c, fn.Signature, args)
+	for i, fv := range fn.FreeVars {
+		if i >= len(bind) {
+			break
+		}
+		et := fv.Type().(*types.Pointer).Elem()
+		env.vars[fv.Name()] = tv{x.fnTerm(st, st.load(bind[i], et)), et}
+	}
+	ord := x.ordinal(fr.fn, g, "call")
+	for _, r := range c.Requires {
+		goal := x.evalClause(env, c, "requires "+r.Label, r.Expr)
+		x.check(st, fmt.Sprintf("%sspawn.pre.%s.%s@%d", fr.prefix, calleeShort(c.Key), r.Label, ord), goal, g.Pos())
 	}
 }
